@@ -170,7 +170,7 @@ fn main() {
     if a[1] == "paths" {
         paths(&g, a[3].parse().unwrap());
     } else {
-        reqs(&g, a[3].parse().unwrap());
+        reqs(&g, a[3].parse().unwrap(), a.get(4).map(|x| x == "edges").unwrap_or(false));
     }
 }
 
@@ -407,7 +407,7 @@ fn action(a: &str) -> FileStoreAction {
     }
 }
 
-fn reqs(g: &Value, depth: usize) {
+fn reqs(g: &Value, depth: usize, edge_cover: bool) {
     // edges: state key -> [(request, status, next state)]
     let mut edges: HashMap<String, Vec<(Value, u64, Value)>> = HashMap::new();
     for e in g["edges"].as_array().unwrap() {
@@ -421,8 +421,34 @@ fn reqs(g: &Value, depth: usize) {
     let mut seqs = 0u64;
     let mut requests = 0u64;
     let mut samples = vec![];
-    // DFS over request sequences; each sequence replayed from the initial tree
+    // edge cover (thorough tier): every edge of the graph once, reached along a shortest path to its source state
     let mut stack: Vec<(Vec<(Value, u64, Value)>, Value)> = vec![(vec![], init.clone())];
+    if edge_cover {
+        stack.clear();
+        let mut path_to: HashMap<String, Vec<(Value, u64, Value)>> = HashMap::new();
+        path_to.insert(fs_key(&init), vec![]);
+        let mut frontier = vec![init.clone()];
+        while let Some(st) = frontier.pop() {
+            let p = path_to[&fs_key(&st)].clone();
+            if p.len() >= depth {
+                continue;
+            }
+            if let Some(es) = edges.get(&fs_key(&st)) {
+                for e in es {
+                    let mut s2 = p.clone();
+                    s2.push(e.clone());
+                    // a terminal entry: `depth` reached, so the main loop below does not extend it
+                    stack.push((s2.clone(), e.2.clone()));
+                    let k = fs_key(&e.2);
+                    if path_to.get(&k).map_or(true, |q| q.len() > s2.len()) {
+                        path_to.insert(k, s2);
+                        frontier.insert(0, e.2.clone());
+                    }
+                }
+            }
+        }
+    }
+    let depth = if edge_cover { 0 } else { depth };
     while let Some((seq, st)) = stack.pop() {
         if !seq.is_empty() {
             seqs += 1;
@@ -452,7 +478,7 @@ fn reqs(g: &Value, depth: usize) {
                     }
                 }
             }
-            if samples.len() < 3 && seq.len() == depth {
+            if samples.len() < 3 && (seq.len() == depth || (edge_cover && seq.len() > 1)) {
                 samples.push(json!(seq.iter().map(|x| json!({"request": x.0, "status": x.1})).collect::<Vec<_>>()));
             }
         }
